@@ -80,7 +80,10 @@ Init0 == [ alive   |-> TRUE,      \* the io dispatcher is in its Processing stat
            aliases |-> << >>,     \* MQTT 5 topic alias bindings: Seq of [a, topic]
            gates   |-> << >>,     \* handlers waiting for the application: Seq of [h, n, kind, id, q]
            ctlRun  |-> 0,         \* n of the control request whose handler runs (0 = none)
-           held    |-> FALSE,     \* that request was released from the buffer: readiness is held until it ends
+           nc      |-> 0,         \* BufferService `next_call` guard of the last released call: 0 none, 1 stored (the
+                                  \* ready() that released it has returned), 2 taken by a ready() that is pending on it
+           stopG   |-> FALSE,     \* phase "stop": the Stop handler has not answered yet
+           stopH   |-> 0, stopRc |-> 0,
            ctlBuf  |-> << >>,     \* control requests parked in the BufferService: Seq of [n, kind, id]
            rbuf    |-> << >>,     \* packets written by the peer and not yet read by the dispatcher
            armed   |-> << >>,     \* armed handler outcomes (FIFO)
@@ -107,30 +110,13 @@ CloseSink(st) ==
 FailClose(st, isCtl) == IF Ver = 3 /\ (isCtl \/ Role = "client") THEN CloseSink(st) ELSE st
 
 ----------------------------------------------------------------------------
-\* Shutdown: Dispatcher::shutdown closes the sink, `stopping` is notified, every handler still in flight is
-\* dropped, the connection task completes.  (While the BufferService still holds a released call or parked
-\* calls its shutdown waits for them: then nothing of this happens yet.)
-RECURSIVE Drops(_)
-Drops(gs) == IF gs = << >> THEN << >> ELSE << E("h_drop", "", Head(gs).h, 0, 0, 0, 0, "") >> \o Drops(Tail(gs))
-Shutdown(st) ==
-  IF (st.ctlRun # 0 /\ st.held) \/ st.ctlBuf # << >> THEN [st EXCEPT !.phase = "done"]
-  ELSE [Emit(st, << E("conn_done", "ok", 0, 0, 0, 0, 0, "") >> \o Drops(st.gates))
-          EXCEPT !.phase = "done", !.gates = << >>]
-
-\* the control service has handled Control::Stop: MQTT 5 answers with DISCONNECT (unless one was written or the
-\* io is closed already), then shutdown
-StopDone(st, h, rc) ==
-  LET s1 == Emit(st, << E("ctl_done", "ok", h, 0, 0, 0, 0, "") >>)
-      s2 == IF Ver = 5 /\ rc >= 0 THEN Write(s1, Resp("DISCONNECT", 0, rc)) ELSE s1
-  IN Shutdown(CloseSink(s2))
-
-\* Control::Stop(kind): the dispatcher leaves Processing for good
+\* Control::Stop(kind): the dispatcher leaves Processing for good; what follows (the Stop arm of the dispatcher,
+\* shutdown) is `Settle` at the end of this module
 Stop(st, kind, rc) ==
   LET h == st.nextH
-      s1 == [Emit(st, << E("ctl", kind, h, 0, 0, 0, 0, "") >>) EXCEPT !.alive = FALSE, !.nextH = h + 1, !.phase = "stop"]
-  IN IF GateStop
-       THEN [s1 EXCEPT !.gates = Append(@, [h |-> h, n |-> 0, kind |-> "stop", id |-> rc, q |-> 0])]
-       ELSE StopDone(s1, h, rc)
+      s1 == [Emit(st, << E("ctl", kind, h, 0, 0, 0, 0, "") >>)
+               EXCEPT !.alive = FALSE, !.nextH = h + 1, !.phase = "stop", !.stopG = GateStop, !.stopH = h, !.stopRc = rc]
+  IN IF GateStop THEN [s1 EXCEPT !.gates = Append(@, [h |-> h, n |-> 0, kind |-> "stop", id |-> rc, q |-> 0])] ELSE s1
 
 \* the dispatcher notices state.error at its next poll
 \* (only in its Processing state: errors raised after Stop are dropped silently)
@@ -201,7 +187,7 @@ CtlDone(st0, kind, id, outcome) ==
   LET st == IF kind = "disc" /\ Ver = 3 /\ ~CtlFails(outcome) THEN CloseSink(st0) ELSE st0 IN
   [st EXCEPT !.ids = IF ~CtlFails(outcome) /\ kind \in {"sub", "unsub", "pubrel"} THEN @ \ {id} ELSE @,
              !.pubIds = IF ~CtlFails(outcome) /\ kind = "pubrel" THEN @ \ {id} ELSE @,
-             !.ctlRun = 0, !.held = FALSE]
+             !.ctlRun = 0, !.nc = 0]
 
 HStartId(kind, id) == IF Ver = 5 /\ kind \notin {"ping", "disc", "auth"} THEN id ELSE 0
 
@@ -221,7 +207,7 @@ StartPub(st, n, q, id, topic, plen) ==
 StartCtl(st, n, kind, id, released) ==
   LET h == st.nextH
       s1 == [Emit(st, << E("h_start", kind, h, HStartId(kind, id), 0, 0, 0, "") >>) EXCEPT !.nextH = h + 1,
-                !.ctlRun = n, !.held = released]
+                !.ctlRun = n, !.nc = IF released THEN 1 ELSE @]
   IN IF s1.armed # << >> \/ ~GateProto
        THEN LET o == IF s1.armed # << >> THEN Head(s1.armed) ELSE "ok"
                 s2 == CtlDone([Emit(s1, << E("h_end", o, h, 0, 0, 135, 0, "") >>)
@@ -316,33 +302,84 @@ LimReady(st) ==
   /\ (Ver = 3 /\ MaxRecv > 0) => NPend(st.ioq) < MaxRecv
   /\ (Role = "server" /\ MaxRecvSize > 0) => SumSz(st.ioq) <= MaxRecvSize
 
-\* run the connection's own tasks until nothing is runnable.  One iteration = one poll of the dispatcher's
-\* readiness future, which persists until it resolves:
-\*   - the inner readiness (BufferService) releases the next parked control call once the inner service is free,
-\*     and is pending while a released call holds it;
-\*   - InFlightServiceImpl::ready joins it with the limiter: an inner readiness obtained while the limiter was
-\*     exhausted is kept (`rdy`), so when a slot frees the next packet is read before the pipeline is polled again.
-\*     Whether the kept readiness survives depends on which task completed the request (the inline future polled by
-\*     the dispatcher itself re-runs the readiness check through the pipeline's waiters, a spawned one does not):
-\*     the model leaves that to the choice `ch` of the command (1 = the readiness is evaluated afresh), both orders
-\*     are explored by TLC and accepted by the trace validator.
-RECURSIVE Quiesce(_)
-Quiesce(st) ==
-  IF ~st.alive THEN st
-  ELSE IF st.closed THEN Stop(st, "stop_peer", -1)        \* the io was closed by the endpoint itself: PeerGone(None)
-  ELSE IF st.rdy /\ st.ch = 1 /\ LimReady(st) /\ st.ctlRun = 0 /\ st.ctlBuf # << >> THEN Quiesce([st EXCEPT !.rdy = FALSE])
-  ELSE IF st.rdy
-    THEN IF ~LimReady(st) THEN st
-         ELSE IF st.rbuf = << >> THEN Quiesce([st EXCEPT !.rdy = FALSE])
-         ELSE Quiesce(Read([st EXCEPT !.rdy = FALSE, !.rbuf = Tail(@)], Head(st.rbuf)))
+\* One evaluation of the readiness of the control pipeline (BufferService::ready) by the dispatcher:
+\*   - a stored `next_call` guard is taken and awaited (nothing else happens until the released call ends);
+\*   - otherwise, when the inner service is free, the next parked call is released (its handler starts; its guard
+\*     is stored) and the service reports ready.
+ReadyEff(st) ==
+  IF st.nc = 2 THEN st
+  ELSE IF st.nc = 1 THEN [st EXCEPT !.nc = 2]
   ELSE IF st.ctlRun = 0 /\ st.ctlBuf # << >>
     THEN LET c == Head(st.ctlBuf)
              x == StartCtl([st EXCEPT !.ctlBuf = Tail(@)], c.n, c.kind, c.id, TRUE)
-         IN Quiesce(IF x[2] = Pend THEN x[1] ELSE HandleRes(x[1], c.n, x[2]))
-  ELSE IF st.ctlRun # 0 /\ st.held THEN st
-  ELSE IF ~LimReady(st) THEN [st EXCEPT !.rdy = TRUE]
-  ELSE IF st.rbuf # << >> THEN Quiesce(Read([st EXCEPT !.rbuf = Tail(@)], Head(st.rbuf)))
+         IN IF x[2] = Pend THEN x[1] ELSE HandleRes(x[1], c.n, x[2])
   ELSE st
+
+\* The dispatcher's poll loop in its Processing state, run until nothing is runnable.  One iteration = one poll
+\* of the readiness future, which persists until it resolves:
+\*   - InFlightServiceImpl::ready joins the inner readiness with the limiter: an inner readiness obtained while
+\*     the limiter was exhausted is kept (`rdy`), so when a slot frees the next packet is read before the pipeline
+\*     is polled again.  Whether the kept readiness survives depends on which task completed the request (the
+\*     inline future polled by the dispatcher itself re-runs the readiness check through the pipeline's waiters,
+\*     a spawned one does not): the model leaves that to the choice `ch` of the command (1 = evaluated afresh),
+\*     both orders are explored by TLC and accepted by the trace validator;
+\*   - a closed io (closed by the endpoint itself) is noticed after the readiness poll: Stop(peer-gone).
+RECURSIVE Quiesce(_)
+Quiesce(st) ==
+  IF ~st.alive THEN st
+  ELSE IF st.rdy /\ st.ch = 1 /\ LimReady(st) /\ st.ctlRun = 0 /\ st.ctlBuf # << >> THEN Quiesce([st EXCEPT !.rdy = FALSE])
+  ELSE IF st.rdy
+    THEN IF st.closed THEN Stop(st, "stop_peer", -1)
+         ELSE IF ~LimReady(st) THEN st
+         ELSE IF st.rbuf = << >> THEN Quiesce([st EXCEPT !.rdy = FALSE])
+         ELSE Quiesce(Read([st EXCEPT !.rdy = FALSE, !.rbuf = Tail(@)], Head(st.rbuf)))
+  ELSE LET s1 == ReadyEff(st) IN
+       IF ~s1.alive THEN s1
+       ELSE IF s1.closed THEN Stop(s1, "stop_peer", -1)
+       ELSE IF s1.nc = 2 THEN s1
+       ELSE IF ~LimReady(s1) THEN [s1 EXCEPT !.rdy = TRUE]
+       ELSE IF s1.rbuf # << >> THEN Quiesce(Read([s1 EXCEPT !.rbuf = Tail(@)], Head(s1.rbuf)))
+       ELSE s1
+
+\* Shutdown (IoDispatcherState::Shutdown -> service.poll_shutdown): Dispatcher::shutdown closes the sink at once;
+\* BufferService::shutdown first waits for a STORED guard (a released call that is still running), then flushes the
+\* parked calls one at a time, each when the inner service is free (their handlers still run, what they answer
+\* is dropped: the io is closed) and does not wait for the last one; then `stopping` is notified: every handler
+\* still in flight is dropped and the connection task completes.
+RECURSIVE Drops(_)
+Drops(gs) == IF gs = << >> THEN << >> ELSE << E("h_drop", "", Head(gs).h, 0, 0, 0, 0, "") >> \o Drops(Tail(gs))
+RECURSIVE ShutStep(_)
+ShutStep(st) ==
+  IF st.nc = 1 THEN st
+  ELSE IF st.ctlBuf # << >>
+    THEN IF st.ctlRun # 0 THEN st
+         ELSE LET c == Head(st.ctlBuf)
+                  x == StartCtl([st EXCEPT !.ctlBuf = Tail(@)], c.n, c.kind, c.id, FALSE)
+              IN ShutStep(IF x[2] = Pend THEN x[1] ELSE HandleRes(x[1], c.n, x[2]))
+  ELSE [Emit(st, << E("conn_done", "ok", 0, 0, 0, 0, 0, "") >> \o Drops(st.gates)) EXCEPT !.phase = "done", !.gates = << >>]
+
+\* the Stop arm of the dispatcher, once per wake-up: the service readiness is still polled ("service may rely on
+\* poll_ready for response results"), then the Stop call; when the control service has answered, MQTT 5 writes the
+\* DISCONNECT it returned, the sink is closed and shutdown begins (a readiness future that was pending on a guard
+\* is dropped with the pipeline state: nobody waits for that call any more)
+StopArm(st) ==
+  \* (a call released by this readiness poll runs in its own task, i.e. after the dispatcher's poll: its events
+  \*  follow the ones of the Stop call)
+  LET r == IF st.rdy THEN [st EXCEPT !.ev = << >>] ELSE ReadyEff([st EXCEPT !.ev = << >>])
+      s1 == [r EXCEPT !.ev = st.ev \o (IF r.stopG THEN r.ev ELSE << >>)]
+  IN
+  IF s1.stopG THEN s1
+  ELSE LET s2 == Emit(s1, << E("ctl_done", "ok", s1.stopH, 0, 0, 0, 0, "") >> \o r.ev)
+           s3 == IF Ver = 5 /\ s2.stopRc >= 0 THEN Write(s2, Resp("DISCONNECT", 0, s2.stopRc)) ELSE s2
+       IN ShutStep([CloseSink(s3) EXCEPT !.phase = "shut", !.nc = IF @ = 2 THEN 0 ELSE @])
+
+\* run the connection's tasks to quiescence in whatever phase it is
+RECURSIVE Settle(_)
+Settle(st) ==
+  CASE st.phase = "run" -> LET s == Quiesce(st) IN IF s.phase = "run" THEN s ELSE Settle(s)
+    [] st.phase = "stop" -> StopArm(st)
+    [] st.phase = "shut" -> ShutStep(st)
+    [] OTHER -> st
 
 ----------------------------------------------------------------------------
 \* packets as the peer writes them: [kind, id, q, topic, alias, plen]
@@ -381,40 +418,40 @@ Arrive(st, pk) ==
        IN Arrive([Emit(st, InEvs(p)) EXCEPT !.narr = n,
                     !.rbuf = Append(@, [n |-> n, kind |-> p.kind, id |-> p.id, q |-> p.q, topic |-> p.topic,
                                         alias |-> p.alias, plen |-> p.plen, sz |-> RL(p)])], Tail(pk))
-DoIn(st, pk, arm, ch) == Quiesce(Arrive([st EXCEPT !.armed = @ \o arm, !.ch = ch], pk))
+DoIn(st, pk, arm, ch) == Settle(Arrive([st EXCEPT !.armed = @ \o arm, !.ch = ch], pk))
 
 \* command: the application's handler h finishes with the given outcome
 DoComplete(st, gi, outcome, ch) ==
   LET g == st.gates[gi]
       rest == SubSeq(st.gates, 1, gi - 1) \o SubSeq(st.gates, gi + 1, Len(st.gates))
   IN IF g.kind = "stop"
-       THEN StopDone([st EXCEPT !.gates = rest], g.h, g.id)
+       THEN Settle([st EXCEPT !.gates = rest, !.stopG = FALSE])
        ELSE
   LET s1 == [Emit(st, << E("h_end", outcome, g.h, 0, 0, 135, 0, "") >>) EXCEPT !.gates = rest, !.ch = ch]
   IN IF g.kind = "pub"
        THEN LET s2 == IF PubFails(g.q, outcome) THEN FailClose(s1, FALSE) ELSE s1 IN
-            Quiesce(HandleRes(PubDone(s2, g.q, g.id, outcome), g.n, PubResult(g.q, g.id, outcome)))
+            Settle(HandleRes(PubDone(s2, g.q, g.id, outcome), g.n, PubResult(g.q, g.id, outcome)))
        ELSE LET s2 == IF CtlFails(outcome) THEN FailClose(s1, TRUE) ELSE s1 IN
-            Quiesce(HandleRes(CtlDone(s2, g.kind, g.id, outcome), g.n, CtlResult(g.kind, g.id, outcome)))
+            Settle(HandleRes(CtlDone(s2, g.kind, g.id, outcome), g.n, CtlResult(g.kind, g.id, outcome)))
 
 \* command: the connection ends for a cause outside the packet stream
 \*   peer_close  the peer closes its end          raw    undecodable bytes arrive
 \*   close       MqttSink::close()                force  MqttSink::force_close()
 \* (undecodable bytes are a cause only once they are read: when the dispatcher is not reading at that moment the
 \*  generator makes no statement about the class of the Stop that follows - token "rawq" instead of "raw")
-CanRead(st) == ~(st.ctlRun # 0 /\ st.held) /\ LimReady(st) /\ st.rbuf = << >> /\ ~(st.ctlRun = 0 /\ st.ctlBuf # << >>)
+CanRead(st) == st.nc = 0 /\ LimReady(st) /\ st.rbuf = << >> /\ ~(st.ctlRun = 0 /\ st.ctlBuf # << >>) /\ ~st.rdy
 EndTok(st, k) == IF k = "raw" /\ ~CanRead(st) THEN "rawq" ELSE k
 DoEnd(st, k) ==
   LET mark == IF k = "raw" /\ ~CanRead(st) THEN E("nocause", "", 0, 0, 0, 0, 0, "")
               ELSE E("cause", IF k = "raw" THEN "stop_proto" ELSE "stop_peer", 0, 0, 0, 0, 0, "") IN
-  CASE k = "peer_close" -> Stop([Emit(st, << mark, E("peer_close", "", 0, 0, 0, 0, 0, "") >>) EXCEPT !.closed = TRUE], "stop_peer", -1)
-    [] k = "raw" -> Quiesce([Emit(st, << mark, E("in", "RESERVED", 0, 0, 0, 0, 0, "") >>)
+  CASE k = "peer_close" -> Settle([Emit(st, << mark, E("peer_close", "", 0, 0, 0, 0, 0, "") >>) EXCEPT !.closed = TRUE])
+    [] k = "raw" -> Settle([Emit(st, << mark, E("in", "RESERVED", 0, 0, 0, 0, 0, "") >>)
                               EXCEPT !.rbuf = Append(@, [n |-> 0, kind |-> "raw", id |-> 0, q |-> 0, topic |-> "", alias |-> 0, plen |-> 0, sz |-> 0])])
     [] k = "close" ->
          LET s1 == Emit(st, << mark, E("close", "close", 0, 0, 0, 0, 0, "") >>)
              s2 == IF Ver = 5 THEN Write(s1, Resp("DISCONNECT", 0, 0)) ELSE s1
-         IN Stop(CloseSink(s2), "stop_peer", -1)
-    [] OTHER -> Stop([Emit(st, << mark, E("close", "force", 0, 0, 0, 0, 0, "") >>) EXCEPT !.closed = TRUE], "stop_peer", -1)
+         IN Settle(CloseSink(s2))
+    [] OTHER -> Settle([Emit(st, << mark, E("close", "force", 0, 0, 0, 0, 0, "") >>) EXCEPT !.closed = TRUE])
 
 \* events of the finished command, and the state ready for the next one
 Evs(st) == st.ev
